@@ -12,6 +12,12 @@ def hook_commits():
         return []
 
 CHECKS = {
+ "C19": dict(
+    level="exploration",
+    technique="fixpoint / differential check over generations (tool from tree -> regenerate -> rebuild scratch copy with the regenerated file -> regenerate) x rapid-drawn neutral perturbations of the repository's own configuration (key permutation, re-serialisation, file split, explicit list vs glob, absolute paths, cwd, environment, stub)",
+    text="Each run regenerates internal/gontainer/gontainer.go and requires byte equality with the checked-in file (version line excepted) in both generations and under every perturbation that C08/C09 say must not matter.",
+    note="Weak fit for generated search: there is one real input; the generated dimension is (perturbation, generation), stated in the evidence.",
+    ref="DESIGN.md §4 C19"),
  "C10": dict(
     level="fault_enumeration",
     technique="complete enumeration of a fault matrix (configuration class x flag subset x output pre-state x input fault, each with and without --quiet) against the real binary, plus rapid-generated configurations placed in drawn cells with the reference model as verdict oracle",
